@@ -110,11 +110,23 @@ def server_reset(chk, rule: str):
         # the segmented branch: where the response announces a segmented transfer.  init_download: `not command & EXPEDITED`;
         # init_upload: the non-expedited branch.  Every path through that branch must reset buffer and toggle.
         seg_tests = [n for n in fs.cfg.nodes if n.kind == "test" and ("EXPEDITED" in src(n.ast) or "size <= 4" in src(n.ast) or "0 < size" in src(n.ast))]
+        sends = [n for n in fs.cfg.nodes if node_calls(n, "self.send_response")]
+        if fname == "init_upload":
+            # segmented = every path to the response on which the EXPEDITED bit is not put into the response command
+            exp_nodes = [n for n in fs.cfg.nodes if n.kind == "stmt" and isinstance(n.ast, (ast.AugAssign, ast.Assign)) and isinstance(getattr(n.ast, "value", None), ast.expr)
+                         and any(folder.try_fold(x, Scope(f.mod), None) == 0x02 for x in ast.walk(n.ast.value) if isinstance(x, (ast.Name, ast.Constant)))]
+            if exp_nodes:
+                for what, nodes in (("buffer", bufs), ("toggle", togs)):
+                    wit = must_pass(fs.cfg, lambda n: n in nodes or n in exp_nodes, to_nodes=sends)
+                    cond_reset = [n for n in nodes if any(p and "is None" in src(e) and "_buffer" in src(e) for e, p in fs.facts_at(n.ast))]
+                    chk.check(wit is None and bool(nodes) and not cond_reset, rule, f"{site} | fresh {what} for every segmented transfer", f.loc(),
+                              f"a segmented transfer can start with the {what} left by an earlier, unfinished transfer"
+                              + (f" (the reset is conditional: {src(cond_reset[0].ast)})" if cond_reset else f": {path_text(wit) if wit else 'no reset found'}"))
+                continue
         if not seg_tests:
             chk.unk(rule, f"{site} | segmented branch", f.loc(), "expedited/segmented decision not found")
             continue
         t = seg_tests[0]
-        sends = [n for n in fs.cfg.nodes if node_calls(n, "self.send_response")]
         for what, nodes in (("buffer", bufs), ("toggle", togs)):
             # from the F edge (segmented) of the decision to the response: must pass a reset
             start = [s for s, lab in t.succs if lab == "F"]
